@@ -54,6 +54,14 @@ def run(chk: Check) -> None:
     sub = chk.sub()
     _tree_dispatch(sub, codec_facts(chk.repo))
     chk.adopt(sub, None, "R14.2")
+    from .c07 import run as _c07
+    sub = chk.sub()
+    _c07(sub)
+    chk.adopt(sub, lambda o: o.rule in ("R07.1", "R07.2"), "R14.2")
+    from .c09 import _no_decode_during_load
+    sub = chk.sub()
+    _no_decode_during_load(sub)
+    chk.adopt(sub, None, "R14.6")
 
 
 def _typestate(chk: Check, ad) -> None:
